@@ -32,7 +32,19 @@ RULE = ("life: a machine with the built-in attract mode (start-tagged switch) an
         "the mode's lifecycle methods, every posted control event, every delivered delay, every hit; per step phase, "
         "control handlers, per shot enabled / registrations found in the EventManager / tracked keys, pending delays of "
         "Mode.delay and of the machine-wide manager; every ModeController._ball_ending against coq/C07/Controller.v.  "
-        "non-trivial = a mode completed a stop and a control event reached a device")
+        "non-trivial = a mode completed a stop and a control event reached a device.  "
+        "own: ONE machine per worker with the modes pa/pb (event_player on a queue and a plain trigger, queue_relay_player, "
+        "variable_player, light_player, show_player), two switches and rig handlers that hold the trigger queue events on "
+        "request; script of start/stop requests, switch handlers registered through Mode.switch_handlers with ms in "
+        "{0..2000}, state 0/1, while the switch is / is not in that state (catch-up), foreign registrations with the same "
+        "parameters, the mode removing a handler itself, switch changes, time steps on the 1/8 s grid, queue posts with / "
+        "without a holder, releases, the relay's wait_for event; some callbacks stop their mode when invoked.  Every operation "
+        "of coq/C07/Own.v is observed in the order it starts (Mode methods, config_play_callback + play, switch changes, "
+        "wake-ups of _process_active_timed_switches, registrations) with status, invoked callbacks, played entries, and at "
+        "every quiescent point the whole state (phase, tracked keys, registered handlers, every counting entry with its "
+        "deadline, player handlers, relay handlers).  non-trivial = a mode stopped and a callback was invoked or a player "
+        "was called from a stale handler list.  life (second pass): generated modes may have a queue_relay_player and an "
+        "event_player entry on a queue event with a rig holder in front; the mode stops while that dispatch is suspended")
 TRUSTED_BASE = [
     "Coq 8.16.1 kernel (coqc), vm_compute for the _refuted witnesses and for evaluating the model in the correspondence run; no native_compute",
     "axioms: none (every Print Assumptions is 'Closed under the global context')",
@@ -48,17 +60,26 @@ TRUSTED_BASE = [
     "MpfFakeGameTestCase (no ball devices: the harness empties the playfield and sets balls_in_play to end a ball)",
     "dev oracle: attribution of registry entries to a generated mode by object identity (mode= kwarg, bound callback, "
     "wrapped callback= kwarg, owner of the DelayManager)",
+    "hand-written model coq/C07/Own.v of the switch-handler registry, the table of counting timed handlers, "
+    "Mode.switch_handlers and the config-player guard / queue-relay wait handlers, tied by the own suite; wrappers around "
+    "ConfigPlayer.config_play_callback, the play methods of five players, SwitchController._process_active_timed_switches "
+    "and a second layer around EventManager._post; the own suite reuses one machine per worker (a case that does not end in "
+    "the base state gets the worker a fresh machine); clock contract: the virtual clock wakes the timed-handler task at its "
+    "scheduled time (checked: no counting entry is past its deadline at a quiescent point)",
 ]
 ASSUMPTIONS = [
     "life suite: non-game modes only; dev suite: game modes inside ONE single-player game (no player change while a mode runs, no game end inside the recorded history)",
     "device layer: shots (EnableDisableMixin + own registrations) are modelled; counters/timers in game modes, the complete-dump comparison and the ball-end phase check are oracle-only supplements; ball_holds/multiballs (need ball devices) are not generated",
     "clock contract of the device layer: only a pending delay is delivered (DFire of anything else has status 2); which of several identical pending delays fires is not distinguished",
-    "code running on behalf of a mode registers things only while the mode is not idle, config players only inside start() (guards of the Add operation)",
+    "code running on behalf of a mode registers things only while the mode is not idle, config players only inside start() (guards of the Add operation; Own.v: a tracked OReg of an idle mode is refused)",
+    "own suite: fixed mode configuration (generated histories only); the context state of light/show players and machine variables are oracle-only; a wake-up with several due deadlines is outside the model's domain (status 2, never observed)",
+    "never-fire-after-stop is stated for callbacks that were only ever registered through the mode and up to their next registration",
     "liveness: proved up to delivery (nothing but the outstanding completion ends a transition; at its first delivery the mode moves on); delivery itself is the bus' job (C02) and is checked by the oracle at every quiescent point (a mode is inside a transition only while a rig handler holds that queue)",
 ]
 
 PHASES = ["will_start", "starting", "started", "will_stop", "stopping", "stopped"]
 NAMES = ["attract", "ma", "mb", "mc"]            # id = index; id order = name order (sort key of active_modes)
+PLAYER_OUT_RE = re.compile(r"^(?:(out|out2|outq|up|down)_(ma|mb|mc)|rl_(ma|mb|mc)_start)$")
 LIFE_RE = re.compile(r"^mode_(attract|ma|mb|mc)_(will_start|starting|started|will_stop|stopping|stopped)$")
 
 
@@ -119,6 +140,10 @@ def gen_mode(rng, name, idx, names):
         mode["event_player"] = ep
     if rng.random() < 0.5:
         mode["variable_player"] = {"ep_" + name: {"v_" + name: {"int": 1, "action": "add_machine"}}}
+    if rng.random() < 0.4:
+        # players triggered by a QUEUE event (the dispatch can be suspended by an earlier handler while the mode stops)
+        mode["queue_relay_player"] = {"qt_" + name: {"post": "rl_%s_start" % name, "wait_for": "rl_%s_done" % name}}
+        mode.setdefault("event_player", {})["qt_" + name] = "outq_" + name
     return mode
 
 
@@ -133,8 +158,10 @@ def device_events(modes):
                 evs.append("rs_" + cn)
         for tn in mc.get("timers", {}):
             evs += ["tp_" + tn, "ts_" + tn, "tx_" + tn]
-        if "event_player" in mc:
+        if "ep_" + name in mc.get("event_player", {}):
             evs.append("ep_" + name)
+        if "queue_relay_player" in mc:
+            evs.append("rl_%s_done" % name)
     return evs
 
 
@@ -172,6 +199,10 @@ def gen_life(rng, tier, i):
             blockers.append({"event": "mode_%s_stopping" % fm, "prio": rng.choice([1, 1000])})
     traced = [["mode_%s_%s" % (m, p), rng.choice([2, 500])] for m in allm for p in PHASES if rng.random() < 0.6]
     devs = device_events(modes)
+    qts = ["qt_" + n for n in names if "queue_relay_player" in modes[n]]
+    for q in qts:
+        if rng.random() < 0.7:
+            blockers.append({"event": q, "prio": 1000})
     script = []
     for _ in range(rng.choice([4, 8, 12, 18, 25, 35])):
         r = rng.random()
@@ -190,7 +221,15 @@ def gen_life(rng, tier, i):
             # the restart idiom: stop with a callback that starts the mode (or another one) again
             script.append(["stopcb", m, m if rng.random() < 0.8 else rng.choice(allm)])
         elif r < 0.62:
-            script.append(["postq", "s_" + m if m != "attract" else "reset_complete"])
+            if qts and rng.random() < 0.6:
+                q = rng.choice(qts)
+                script.append(["postq", q])
+                if rng.random() < 0.5:
+                    # the mode stops while the dispatch of its players' trigger is suspended; then the dispatch goes on
+                    script.append(rng.choice([["post", "e_" + q[3:]], ["stop", q[3:]]]))
+                    script.append(["release"])
+            else:
+                script.append(["postq", "s_" + m if m != "attract" else "reset_complete"])
         elif r < 0.78 and devs:
             script.append(["post", rng.choice(devs)])
         elif r < 0.93:
@@ -254,6 +293,10 @@ def _install():
             m = LIFE_RE.match(event)
             if m and m.group(1) in rec.ids:
                 rec.posted.append([rec.ids[m.group(1)], PHASES.index(m.group(2))])
+            m = PLAYER_OUT_RE.match(event)
+            if m and hasattr(rec, "player_posts") and (m.group(2) or m.group(3)) in rec.ids:
+                # oracle data: an output of a mode's config player, and whether the mode is active at that moment
+                rec.player_posts.append([event, bool(self.machine.modes[m.group(2) or m.group(3)].active)])
         return orig_post(self, event, ev_type, callback, **kwargs)
     EventManager._post = _post
 
@@ -282,6 +325,7 @@ class Recorder:
         self.sorted_bad = []            # oracle data: active list not the sorted list of active modes
         self.requests = []
         self.shared_queue_start = {}    # mode id -> its latest accepted start re-posted the caller's queue
+        self.player_posts = []
 
     # -- attribution ---------------------------------------------------------------------------
     def key(self, kind, ident, obj=None):
@@ -615,6 +659,24 @@ def idle_leaks(machine, names, devices):
                     leaks.append("switch handler %s -> %s (%s)" % (sw.name, getattr(ent.callback, "__qualname__", "?"), objs[id(cb_self)]))
     for d in delay_dump(machine, idle, devices):
         leaks.append("delay " + d[2:])
+    # counting "held for ms" entries of the switch controller (callbacks looked at through partials)
+    for sw, buckets in machine.switch_controller._active_timed_switches.items():
+        for t, lst in buckets.items():
+            for ent in lst:
+                cands = [ent.callback] + list(getattr(ent.callback, "args", ()) or ())
+                for c in cands:
+                    obj, meth = _cb_target(getattr(c, "callback", c))
+                    if obj is not None and id(obj) in objs:
+                        leaks.append("counting timed switch handler %s -> %s (%s)" % (sw.name, meth, objs[id(obj)]))
+                        break
+    qrp = getattr(machine, "queue_relay_player", None)
+    for ev, hl in machine.events.registered_handlers.items():
+        for h in hl:
+            if qrp is not None and getattr(h.callback, "__self__", None) is qrp and h.kwargs.get("context") in idle:
+                leaks.append("queue relay wait handler %s (context %s)" % (ev, h.kwargs.get("context")))
+    for mn in idle:
+        if qrp is not None and qrp.instances.get(mn, {}).get("queue_relay_player"):
+            leaks.append("queue relay instance state of %s" % mn)
     return sorted(leaks)
 
 
@@ -813,6 +875,11 @@ def run_life(case):
                 settle()
             rig.advance(3.0)
             settle()
+        # relays of modes that are up in the base configuration are finished (their wait handlers belong to a running mode)
+        for n, mc in case["modes"].items():
+            if "queue_relay_player" in mc:
+                machine.events.post("rl_%s_done" % n)
+                settle()
         rig.advance(3.0)
         settle()
         quiet("end")
@@ -841,6 +908,8 @@ def run_life(case):
         out["cycle_regs_differ"] = [[i, multiset_diff(r, rs[0])[:3], multiset_diff(rs[0], r)[:3]]
                                     for i, rs in cyc.items() for r in rs[1:] if r != rs[0]][:3]
         out["held_left"] = len(held)
+        out["late_player_posts"] = [p for p in rec.player_posts if not p[1]][:4]
+        out["player_posts"] = len(rec.player_posts)
     except BaseException as e:       # what the code raises is data (e.g. a late delay callback on dropped state)
         out["error"] = "%s: %s" % (type(e).__name__, str(e)[:160])
         out["error_tail"] = str(e)[-120:]
@@ -963,8 +1032,44 @@ def oracle_life(case, out):
             fails.append({"sig": "transition-stuck", "what": "after script step %s mode(s) %s are inside a transition (phases %s) "
                           "although no handler holds the queue of that transition" % (tag, [names[i] for i in bad], phases)})
             break
+    # known finding started-callback-of-earlier-start-runs-hook: the callback of mode_<m>_started of an EARLIER start is
+    # delivered after the mode was stopped and started again (stop + restart from handlers of that very event); the mode is
+    # active, so _mode_started_callback runs the mode_start() hook, and the callback of the current start runs it again.
+    # Exactly that pattern: two hook runs after one accepted start while two started-callbacks were outstanding.
+    stale_hook = {}
+    runs, outstanding = {}, {}
+    for st in out["steps"]:
+        k, i = st[0], st[1]
+        if k == "Start" and st[3] == 1:
+            runs[i] = 0
+        elif k == "QStarted" and st[3] == 1:
+            outstanding[i] = outstanding.get(i, 0) + 1
+        elif k == "CbStarted":
+            if st[3] == 1:
+                runs[i] = runs.get(i, 0) + 1
+                if runs[i] == 1:
+                    first_outstanding = outstanding.get(i, 0)
+                    runs[(i, "o")] = first_outstanding
+                elif runs.get((i, "o"), 0) >= 2:
+                    stale_hook[i] = stale_hook.get(i, 0) + 1
+            outstanding[i] = outstanding.get(i, 0) - 1
+    if stale_hook:
+        i = sorted(stale_hook)[0]
+        fails.append({"sig": "started-callback-of-earlier-start-runs-hook",
+                      "what": "mode %s: the mode_start() hook ran %d times after one accepted start: the callback of the "
+                              "mode_%s_started event of an earlier start was delivered after the mode had been stopped and "
+                              "started again" % (NAMES[i], 1 + stale_hook[i], NAMES[i])})
     if out.get("at_base") and out.get("dump_diff"):
-        fails.append({"sig": "registry-not-restored", "what": "registries differ from the pre-start dump: %s" % out["dump_diff"][:6]})
+        # what exactly that defect leaves in the dump: the attract mode (the only recorded mode whose hook registers
+        # something) is up and has its two start-button handlers once more per extra hook run
+        expected = []
+        if 0 in stale_hook and (out.get("final_phases") or [0])[0] == 2:
+            expected = [["+", "S s_start 0 Attract.start_button_released 0"],
+                        ["+", "S s_start 1 Attract.start_button_pressed 0"]] * stale_hook[0]
+        if not (expected and sorted(map(str, out["dump_diff"])) == sorted(map(str, expected))):
+            fails.append({"sig": "registry-not-restored", "what": "registries differ from the pre-start dump: %s" % out["dump_diff"][:6]})
+    if out.get("late_player_posts"):
+        fails.append({"sig": "played-after-stop", "what": "a config player of a mode that is not active played: %s" % out["late_player_posts"][:3]})
     if out.get("regs_missing"):
         tag, i, missing = out["regs_missing"][0]
         fails.append({"sig": "registrations-lost", "what": "mode %s is up but no longer has what its start registered: %s (script step %s)" %
@@ -997,7 +1102,7 @@ def shrink_life(case):
         for i in range(len(case[key])):
             yield dict(case, **{key: case[key][:i] + case[key][i + 1:]})
     for mn, mc in case["modes"].items():
-        for sec in ("counters", "timers", "event_player", "variable_player"):
+        for sec in ("counters", "timers", "event_player", "variable_player", "queue_relay_player"):
             if sec in mc:
                 yield dict(case, modes=dict(case["modes"], **{mn: {k: v for k, v in mc.items() if k != sec}}))
     if case["traced"]:
@@ -1760,6 +1865,684 @@ def describe_dev(case):
                                             if len(case["script"]) <= 24 else ">24", len(case["blockers"]))
 
 
+
+# ================================================================================================
+# suite "own": what a mode owns in the switch controller (incl. the table of counting "held for ms" handlers) and in its
+# config players (coq/C07/Own.v), on ONE machine per worker (fixed configuration, generated histories)
+OWN_MODES = ["pa", "pb"]
+OWN_SW = ["sw_a", "sw_b"]
+OWN_ENTRIES = [("event_player", "trq1"), ("event_player", "tr1"), ("queue_relay_player", "trq2"),
+               ("variable_player", "trq1"), ("light_player", "tr1"), ("show_player", "trq1")]
+OWN_MS = [0, 0, 250, 500, 1000, 2000]
+_OWN = [None]
+_OWNRIG = [None]
+_OWNPLAYS = [0]
+
+
+def own_mode_cfg(n, prio):
+    return {"mode": {"priority": prio, "start_events": ["s_" + n], "stop_events": ["e_" + n], "game_mode": False},
+            "event_player": {"trq1": "outp_%s_0" % n, "tr1": "outp_%s_1" % n},
+            "queue_relay_player": {"trq2": {"post": "rly_%s_start" % n, "wait_for": "rly_%s_done" % n}},
+            "variable_player": {"trq1": {"v_" + n: {"int": 1, "action": "add_machine"}}},
+            "light_player": {"tr1": {"l_a": "red"}},
+            "show_player": {"trq1": {"sh_own": {"loops": -1}}}}
+
+
+def own_cbs(m):
+    """callback ids a mode registers through Mode.switch_handlers"""
+    base = OWN_MODES.index(m) * 10
+    return [base, base + 1, base + 2, base + 3]
+
+
+def gen_own(rng, tier, i):
+    stoppers = [cb for m in OWN_MODES for cb in own_cbs(m) if rng.random() < 0.12]
+    script = []
+    focus = i % 6
+    m0 = rng.choice(OWN_MODES)
+    if focus == 0:
+        # the switch is already held when the mode registers its "held for ms" handler; the mode stops before the deadline
+        sw = rng.choice([0, 1])
+        script += [["sw", sw, 1], ["adv", rng.choice([1, 2, 4])], ["start", m0],
+                   ["reg", m0, own_cbs(m0)[0], sw, 1, rng.choice([1000, 2000]), True], ["adv", rng.choice([1, 2])],
+                   rng.choice([["stop", m0], ["post", "e_" + m0]]), ["adv", 16]]
+    elif focus == 1:
+        # a queue event is held by an earlier handler, the mode stops completely meanwhile, then the dispatch goes on
+        script += [["start", m0], ["postq", rng.choice(["trq1", "trq2"]), True], rng.choice([["stop", m0], ["post", "e_" + m0]]),
+                   ["adv", rng.choice([0, 1])], ["release"]]
+    if focus >= 2:
+        for m in OWN_MODES:
+            if rng.random() < 0.75:
+                script.append(["start", m])
+    for _ in range(rng.choice([5, 8, 12, 18, 26])):
+        r = rng.random()
+        m = rng.choice(OWN_MODES)
+        if r < 0.10:
+            script.append(rng.choice([["start", m], ["post", "s_" + m]]))
+        elif r < 0.18:
+            script.append(rng.choice([["stop", m], ["post", "e_" + m]]))
+        elif r < 0.36:
+            script.append(["reg", m, rng.choice(own_cbs(m)), rng.choice([0, 1]), rng.choice([1, 1, 1, 0]), rng.choice(OWN_MS), True])
+        elif r < 0.41:
+            script.append(["reg", "pa", rng.choice([100, 101]), rng.choice([0, 1]), rng.choice([1, 1, 0]), rng.choice(OWN_MS), False])
+        elif r < 0.45:
+            script.append(["unreg", m, rng.randint(0, 3)])
+        elif r < 0.60:
+            script.append(["sw", rng.choice([0, 1]), rng.choice([0, 1, 1])])
+        elif r < 0.76:
+            script.append(["adv", rng.choice([1, 2, 2, 4, 4, 8, 12, 16, 17])])
+        elif r < 0.85:
+            script.append(["postq", rng.choice(["trq1", "trq2"]), rng.random() < 0.6])
+        elif r < 0.89:
+            script.append(["post", "tr1"])
+        elif r < 0.94:
+            script.append(["release"])
+        elif r < 0.97:
+            # the mode's next stop is held in its stopping queue: registrations of the mode while it is stopping
+            script += [["holdstop", m], rng.choice([["stop", m], ["post", "e_" + m]]),
+                       ["reg", m, rng.choice(own_cbs(m)), rng.choice([0, 1]), 1, rng.choice(OWN_MS), True]]
+        else:
+            script.append(["done", m])
+    return {"stoppers": stoppers, "script": script}
+
+
+def _install_own():
+    from mpf.core.config_player import ConfigPlayer
+    from mpf.core.switch_controller import SwitchController
+    from mpf.core.events import EventManager
+    _install()
+    if getattr(ConfigPlayer, "_c07_own_patched", False):
+        return
+    ConfigPlayer._c07_own_patched = True
+    orig_cpc = ConfigPlayer.config_play_callback
+
+    @functools.wraps(orig_cpc)
+    def config_play_callback(self, settings, calling_context, priority=0, mode=None, **kwargs):
+        rec = _OWN[0]
+        if rec is None or mode is None or rec.machine is not self.machine or mode.name not in rec.ids:
+            return orig_cpc(self, settings, calling_context, priority, mode, **kwargs)
+        slot = rec.call_enter(self, settings, calling_context, mode)
+        before = _OWNPLAYS[0]
+        try:
+            return orig_cpc(self, settings, calling_context, priority, mode, **kwargs)
+        finally:
+            rec.call_leave(slot, mode, _OWNPLAYS[0] > before)
+    ConfigPlayer.config_play_callback = config_play_callback
+
+    def wrap_play(cls):
+        orig = cls.__dict__["play"]
+
+        @functools.wraps(orig)
+        def play(self, *args, **kwargs):
+            _OWNPLAYS[0] += 1
+            return orig(self, *args, **kwargs)
+        cls.play = play
+    from mpf.config_players.event_player import EventPlayer
+    from mpf.config_players.queue_relay_player import QueueRelayPlayer
+    from mpf.config_players.variable_player import VariablePlayer
+    from mpf.config_players.light_player import LightPlayer
+    from mpf.config_players.show_player import ShowPlayer
+    for cls in (EventPlayer, QueueRelayPlayer, VariablePlayer, LightPlayer, ShowPlayer):
+        wrap_play(cls)
+
+    orig_fire = SwitchController._process_active_timed_switches
+
+    @functools.wraps(orig_fire)
+    def _process_active_timed_switches(self, switch):
+        rec = _OWN[0]
+        if rec is None or rec.machine is not self.machine or switch.name not in OWN_SW:
+            return orig_fire(self, switch)
+        slots = rec.fire_enter(switch)
+        try:
+            return orig_fire(self, switch)
+        finally:
+            rec.fire_leave(slots)
+    SwitchController._process_active_timed_switches = _process_active_timed_switches
+
+    prev_post = EventManager._post
+
+    @functools.wraps(prev_post)
+    def _post(self, event, ev_type, callback, **kwargs):
+        rec = _OWN[0]
+        if rec is not None and rec.machine is self.machine and (event.startswith("outp_") or event.startswith("rly_p")) \
+                and not event.endswith("_done"):
+            mn = event.split("_")[1]
+            if mn in rec.ids:
+                rec.outputs.append([event, bool(self.machine.modes[mn].active)])
+        return prev_post(self, event, ev_type, callback, **kwargs)
+    EventManager._post = _post
+
+
+def _own_unwrap(cb, cbid, depth=0):
+    """callback id behind a (possibly wrapped) callable: the callable itself, functools.partial func/args, and
+    objects among the arguments that carry a .callback (a registration record)"""
+    try:
+        if cb in cbid:
+            return cbid[cb]
+    except TypeError:
+        pass
+    if depth > 3:
+        return None
+    for sub in [getattr(cb, "func", None), getattr(cb, "callback", None), getattr(cb, "__wrapped__", None)] + \
+            list(getattr(cb, "args", None) or ()) + list((getattr(cb, "keywords", None) or {}).values()):
+        if sub is not None and sub is not cb:
+            r = _own_unwrap(sub, cbid, depth + 1)
+            if r is not None:
+                return r
+    return None
+
+
+class OwnRec:
+    """Records the operations of coq/C07/Own.v per mode; an operation is appended when it STARTS (its own effect is
+    complete before anything it triggers runs), its status / invoked callbacks / played entries are filled in when it ends."""
+
+    def __init__(self, rig, case):
+        self.rig = rig
+        self.machine = rig.machine
+        self.ids = {n: i for i, n in enumerate(OWN_MODES)}
+        self.posted = []                # interface of the wrappers of _install()
+        self.hook_ran = False
+        self.ops = {n: [] for n in OWN_MODES}       # [name, args...]
+        self.obs = {n: [] for n in OWN_MODES}       # [status, invoked, played, dump]
+        self.depth = 0
+        self.stack = []
+        self.nested = False
+        self.in_cb = 0
+        self.open = {n: None for n in OWN_MODES}    # the switch operation that collects invocations
+        self.outputs = []
+        self.live_keys = {n: [] for n in OWN_MODES}  # independent book-keeping of the oracle: keys registered through the mode
+        self.bad_fire = []
+        self.stoppers = set(case["stoppers"])
+        self.serial = 0
+        self.entry_serial = {}
+        self.keep = []
+        self.foreign = []
+        self.t0 = self.machine.clock.get_time()
+        self.cbf = {}
+        self.cbid = {}
+        for cb in [c for m in OWN_MODES for c in own_cbs(m)] + [100, 101]:
+            f = self.make_cb(cb)
+            self.cbf[cb] = f
+            self.cbid[f] = cb
+
+    def inst(self, cb):
+        return "pb" if 10 <= cb < 20 else "pa"
+
+    def now(self):
+        return int(round((self.machine.clock.get_time() - self.t0) * 1e6))
+
+    def rel(self, t):
+        return int(round((t - self.t0) * 1e6))
+
+    def make_cb(self, cb):
+        def handler(**kwargs):
+            n = self.inst(cb)
+            if self.open[n] is not None:
+                self.obs[n][self.open[n]][1].append(cb)
+            else:
+                self.bad_fire.append(["outside", cb, self.now()])
+            if cb < 100 and not any(k[0] == cb for k in self.live_keys[n]):
+                # the property's own predicate: a handler registered through the mode is invoked although the mode's stop
+                # was requested (or the mode's code removed it) since it was registered
+                self.bad_fire.append(["after-stop", cb, self.now()])
+            if cb in self.stoppers:
+                self.in_cb += 1
+                try:
+                    self.machine.modes[n].stop()
+                finally:
+                    self.in_cb -= 1
+        return handler
+
+    def emit(self, n, op, status=0):
+        self.ops[n].append(op)
+        self.obs[n].append([status, [], [], []])
+        return len(self.ops[n]) - 1
+
+    # -- Mode wrappers (installed by _install) ---------------------------------------------------------------------------
+    def phase(self, mode):
+        flags = (bool(mode._active), bool(mode._starting), bool(mode.stopping), bool(getattr(mode, "_cleanup_pending", False)))
+        return {(False, False, False, False): 0, (False, True, False, False): 1, (True, False, False, False): 2,
+                (True, False, True, False): 3, (False, False, False, True): 4}.get(flags, 9)
+
+    def enter(self, kind, mode, args, kwargs):
+        self.depth += 1
+        top = self.stack[-1] if self.stack else None
+        if kind == "CbStarted":
+            self.stack.append(None)
+            return None
+        if kind == "Stop" and self.in_cb:
+            # a stop requested by a switch callback: part of the switch operation in the model (parameter stp)
+            tok = {"kind": "CbStop", "mode": mode, "was_stopping": bool(mode.stopping)}
+            self.stack.append(tok)
+            return tok
+        if top is not None and not (top["kind"] == "CbStop"):
+            if not (kind == "CbStopped" and top["kind"] == "Start" and top["mode"] is mode):
+                self.nested = True
+            self.stack.append(None)
+            return None
+        tok = {"kind": kind, "mode": mode, "was_starting": mode._starting, "was_stopping": bool(mode.stopping),
+               "pending": bool(getattr(mode, "_cleanup_pending", False)), "slot": self.emit(mode.name, ["O" + kind])}
+        self.stack.append(tok)
+        return tok
+
+    def leave(self, tok, ret):
+        self.depth -= 1
+        self.stack.pop()
+        if tok is None:
+            return
+        kind, mode = tok["kind"], tok["mode"]
+        if kind in ("Stop", "CbStop"):
+            # oracle book-keeping: an ACCEPTED stop request (not the redundant one of a mode that is already stopping)
+            if ret and not tok["was_stopping"] and self.phase(mode) == 3:
+                self.live_keys[mode.name] = []
+            if kind == "CbStop":
+                return
+        if tok["pending"] and kind in ("CbStopped", "Start"):
+            self.live_keys[mode.name] = []          # the final clean-up ran
+        if kind == "Start":
+            status = 1 if (mode._starting and not tok["was_starting"]) else 0
+        elif kind == "Stop":
+            status = 1 if ret else 0
+        elif kind == "CbStopped":
+            status = 1 if tok["pending"] else 0
+        else:
+            status = 1
+        self.obs[mode.name][tok["slot"]][0] = status
+
+    # -- switch controller -----------------------------------------------------------------------------------------------
+    def table(self, switch):
+        """counting entries of a switch: [deadline, cb id or 999, switch, state, ms]"""
+        sc = self.machine.switch_controller
+        out = []
+        for t, lst in sc._active_timed_switches.get(switch, {}).items():
+            for h in lst:
+                try:
+                    cb = self.cbid.get(h.callback, 999)
+                except TypeError:
+                    cb = 999
+                out.append([self.rel(t), cb, OWN_SW.index(switch.name), h.state, h.ms, h.callback])
+        return out
+
+    def fire_enter(self, switch):
+        now = self.now()
+        slots = {}
+        tab = self.table(switch)
+        for n in OWN_MODES:
+            due = sorted(set(e[0] for e in tab if e[0] <= now and self.inst(e[1] if e[1] != 999 else 0) == n))
+            slots[n] = self.emit(n, ["OFire", OWN_SW.index(switch.name), now], 0 if not due else (1 if len(due) == 1 else 2))
+        self.prev_open = dict(self.open)
+        self.open = dict(slots)
+        return slots
+
+    def fire_leave(self, slots):
+        self.open = {n: None for n in OWN_MODES}
+
+    # -- config players ----------------------------------------------------------------------------------------------------
+    def call_enter(self, player, settings, calling_context, mode):
+        e = OWN_ENTRIES.index((player.config_file_section, calling_context)) \
+            if (player.config_file_section, calling_context) in OWN_ENTRIES else 99
+        live = any(h.kwargs.get("mode") is mode and h.kwargs.get("settings") is settings and
+                   getattr(h.callback, "__self__", None) is player
+                   for h in self.machine.events.registered_handlers.get(calling_context, []))
+        return self.emit(mode.name, ["OCall", e, bool(live)])
+
+    def call_leave(self, slot, mode, played):
+        o = self.obs[mode.name][slot]
+        o[0] = 1 if played else 0
+        if played:
+            o[2].append(self.ops[mode.name][slot][1])
+
+    def relay_count(self, n):
+        qrp = self.machine.queue_relay_player
+        return sum(1 for h in self.machine.events.registered_handlers.get("rly_%s_done" % n, [])
+                   if getattr(h.callback, "__self__", None) is qrp and h.kwargs.get("context") == n)
+
+    def loaded(self, n):
+        from mpf.core.config_player import ConfigPlayer
+        mode = self.machine.modes[n]
+        c = 0
+        for ev in ("trq1", "trq2", "tr1"):
+            for h in self.machine.events.registered_handlers.get(ev, []):
+                if h.kwargs.get("mode") is mode and isinstance(getattr(h.callback, "__self__", None), ConfigPlayer):
+                    c += 1
+        return 1 if c == len(OWN_ENTRIES) else (0 if c == 0 else 7)
+
+    # -- state dump (operation OObs) ------------------------------------------------------------------------------------------
+    def dump(self, n):
+        m = self.machine
+        mode = m.modes[n]
+        sers, cnts = [], []
+        for swn in OWN_SW:
+            sw = m.switches[swn]
+            for st in (0, 1):
+                for ent in m.switch_controller.registered_switches[sw][st]:
+                    ser = self.entry_serial.get(id(ent))
+                    if ser is not None:
+                        if ser[1] == n:
+                            sers.append(ser[0])
+                    elif _own_unwrap(ent.callback, self.cbid) is not None and n == "pa":
+                        sers.append(9999)
+            for e in self.table(sw):
+                if self.inst(e[1] if e[1] != 999 else 0) == n:
+                    cnts.append(e[:5])
+        return [[self.phase(mode), len(mode.switch_handlers), self.loaded(n), self.relay_count(n)], sorted(sers)] + sorted(cnts)
+
+    def leaks(self, n):
+        """independent of the mode's book-keeping: what refers to an idle mode in the switch controller / its players"""
+        m = self.machine
+        mode = m.modes[n]
+        out = []
+        mine = set(own_cbs(n))
+        for swn in OWN_SW:
+            sw = m.switches[swn]
+            for st in (0, 1):
+                for ent in m.switch_controller.registered_switches[sw][st]:
+                    if _own_unwrap(ent.callback, self.cbid) in mine:
+                        out.append("switch handler %s/%d ms=%s cb%s" % (swn, st, ent.ms, _own_unwrap(ent.callback, self.cbid)))
+            for t, lst in m.switch_controller._active_timed_switches.get(sw, {}).items():
+                for h in lst:
+                    if _own_unwrap(h.callback, self.cbid) in mine:
+                        out.append("counting timed handler %s ms=%s cb%s due at %s" % (swn, h.ms, _own_unwrap(h.callback, self.cbid), self.rel(t)))
+        if mode.switch_handlers:
+            out.append("Mode.switch_handlers has %d entries" % len(mode.switch_handlers))
+        if self.relay_count(n):
+            out.append("%d queue relay wait handlers (context %s)" % (self.relay_count(n), n))
+        if self.loaded(n):
+            out.append("config player handlers of the mode are registered")
+        for pl in ("queue_relay_player", "show_player", "light_player", "event_player", "variable_player"):
+            inst = getattr(m, pl).instances.get(n, {}).get(pl)
+            if inst:
+                out.append("%s instance state %s" % (pl, sorted(str(k)[:30] for k in inst)))
+        for ln in ("l_a", "l_b"):
+            for ent in m.lights[ln].stack:
+                if str(ent.key).startswith(n + "."):
+                    out.append("light %s stack entry %s" % (ln, ent.key))
+        return out
+
+
+def _own_boot():
+    from rig import Rig
+    cfg = {"modes": list(OWN_MODES),
+           "switches": {"s_start": {"number": "1", "tags": "start"}, "sw_a": {"number": "2"}, "sw_b": {"number": "3"}},
+           "lights": {"l_a": {"number": "1", "subtype": "led", "type": "rgb"}, "l_b": {"number": "2", "subtype": "led", "type": "rgb"}}}
+    shows = {"sh_own": [{"time": 0, "lights": {"l_b": "blue"}}, {"time": 1, "lights": {"l_b": "green"}}]}
+    rig = Rig(cfg, modes={"pa": own_mode_cfg("pa", 100), "pb": own_mode_cfg("pb", 200)}, shows=shows)
+    rig.start()
+    st = {"rig": rig, "held": [], "hold_next": {"trq1": False, "trq2": False, "mode_pa_stopping": False, "mode_pb_stopping": False}}
+
+    def blocker(ev):
+        def bh(queue, **kwargs):
+            if st["hold_next"][ev] and not queue.waiter:
+                st["hold_next"][ev] = False
+                queue.wait()
+                st["held"].append(queue)
+        return bh
+    for ev in ("trq1", "trq2", "mode_pa_stopping", "mode_pb_stopping"):
+        rig.machine.events.add_handler(ev, blocker(ev), priority=1000)
+    rig.advance(0)
+    now = rig.now()
+    import math
+    rig.advance(math.ceil(now * 8) / 8.0 - now + 1.0)
+    st["base"] = canonical_dump(rig.machine)
+    return st
+
+
+def _init_own():
+    _install_own()
+
+
+def run_own(case):
+    _install_own()
+    st = _OWNRIG[0]
+    if st is None:
+        try:
+            st = _own_boot()
+        except BaseException as e:
+            return {"boot_error": "%s: %s" % (type(e).__name__, str(e)[:200])}
+        _OWNRIG[0] = st
+    rig = st["rig"]
+    machine = rig.machine
+    held = st["held"]
+    out = {"error": None, "modes": {}, "quiescent": [], "grid": True}
+    keep = False
+    try:
+        def settle():
+            for _ in range(400):
+                rig.advance(0)
+                if not rig.loop._ready:
+                    return
+            raise RuntimeError("no quiescence")
+
+        sc = machine.switch_controller
+        # known start: both switches open for 10 s (no catch-up possible), machine variables reset
+        for swn in OWN_SW:
+            if machine.switches[swn].state:
+                sc.process_switch(swn, 0, logical=True)
+        rig.advance(10.0)
+        settle()
+        now = rig.now()
+        out["grid"] = abs(now * 8 - round(now * 8)) < 1e-6
+        rec = OwnRec(rig, case)
+        _REC[0] = rec
+        _OWN[0] = rec
+        base_handlers = {n: sum(1 for hl in machine.events.registered_handlers.values() for h in hl
+                                if h.kwargs.get("mode") is machine.modes[n]) for n in OWN_MODES}
+
+        def quiet(tag):
+            for n in OWN_MODES:
+                slot = rec.emit(n, ["OObs"])
+                rec.obs[n][slot][3] = rec.dump(n)
+            leaks = []
+            phases = [rec.phase(machine.modes[n]) for n in OWN_MODES]
+            for n, p in zip(OWN_MODES, phases):
+                if p == 0:
+                    leaks += ["%s: %s" % (n, x) for x in rec.leaks(n)]
+                    extra = sum(1 for hl in machine.events.registered_handlers.values() for h in hl
+                                if h.kwargs.get("mode") is machine.modes[n]) - base_handlers[n]
+                    if extra:
+                        leaks.append("%s: %d event handlers with mode=%s beyond its boot-time ones" % (n, extra, n))
+            overdue = [e[:5] for swn in OWN_SW for e in rec.table(machine.switches[swn]) if e[0] <= rec.now()]
+            out["quiescent"].append([tag, phases, leaks[:6], overdue[:3]])
+
+        step = 0
+        for op in case["script"]:
+            step += 1
+            k = op[0]
+            if k == "start":
+                machine.modes[op[1]].start()
+            elif k == "stop":
+                machine.modes[op[1]].stop()
+            elif k == "post":
+                machine.events.post(op[1])
+            elif k == "postq":
+                st["hold_next"][op[1]] = bool(op[2])
+                machine.events.post_queue(op[1], callback=lambda **kwargs: None)
+                settle()
+                st["hold_next"][op[1]] = False
+            elif k == "release":
+                if held:
+                    held.pop(0).clear()
+            elif k == "holdstop":
+                st["hold_next"]["mode_%s_stopping" % op[1]] = True      # the next stop of the mode waits for a release
+            elif k == "done":
+                n = op[1]
+                rec.emit(n, ["ODone", 2], rec.relay_count(n))
+                machine.events.post("rly_%s_done" % n)
+            elif k == "adv":
+                rig.advance(op[1] / 8.0)
+            elif k == "sw":
+                t = rec.now()
+                slots = {n: rec.emit(n, ["OChange", op[1], op[2], t], 0 if machine.switches[OWN_SW[op[1]]].state == op[2] else 1)
+                         for n in OWN_MODES}
+                rec.open = dict(slots)
+                try:
+                    sc.process_switch(OWN_SW[op[1]], op[2], logical=True)
+                finally:
+                    rec.open = {n: None for n in OWN_MODES}
+            elif k == "reg":
+                n, cb, swi, state, ms, tracked = op[1:7]
+                mode = machine.modes[n]
+                if not tracked or rec.phase(mode) != 0:      # code of a mode runs only while the mode is not idle
+                    sw = machine.switches[OWN_SW[swi]]
+                    key = sc.add_switch_handler_obj(sw, rec.cbf[cb], state, ms)
+                    ent = sc.registered_switches[sw][state][-1]
+                    rec.serial += 1
+                    rec.entry_serial[id(ent)] = (rec.serial, n)
+                    rec.keep.append(ent)
+                    if tracked:
+                        mode.switch_handlers.append(key)
+                        rec.live_keys[n].append((cb, swi, state, ms))
+                    else:
+                        rec.foreign.append(key)
+                    rec.emit(n, ["OReg", rec.serial, [cb, swi, state, ms], bool(tracked), rec.now()], 1)
+            elif k == "unreg":
+                n = op[1]
+                mode = machine.modes[n]
+                if mode.switch_handlers:
+                    key = mode.switch_handlers[op[2] % len(mode.switch_handlers)]
+                    kk = (rec.cbid[key.callback], OWN_SW.index(key.switch_name.name if hasattr(key.switch_name, "name") else key.switch_name),
+                          key.state, key.ms)
+                    sc.remove_switch_handler_by_key(key)
+                    mode.switch_handlers.remove(key)
+                    rec.live_keys[n] = [x for x in rec.live_keys[n] if x != kk]
+                    rec.emit(n, ["OUnreg", list(kk)], 1)
+            settle()
+            quiet(step)
+        # wind down: release every queue, finish the relays, stop the modes, remove the foreign handlers, let time pass
+        for ev in st["hold_next"]:
+            st["hold_next"][ev] = False
+        for _ in range(3):
+            while held:
+                held.pop(0).clear()
+                settle()
+            for n in OWN_MODES:
+                machine.events.post("rly_%s_done" % n)
+                rec.emit(n, ["ODone", 2], rec.relay_count(n))
+                settle()
+                machine.modes[n].stop()
+                settle()
+        for key in rec.foreign:
+            kk = [rec.cbid[key.callback], OWN_SW.index(key.switch_name.name if hasattr(key.switch_name, "name") else key.switch_name),
+                  key.state, key.ms]
+            sc.remove_switch_handler_by_key(key)
+            rec.emit("pa", ["OUnreg", kk], 1)
+        rig.advance(3.0)
+        settle()
+        quiet("end")
+        out["final_phases"] = [rec.phase(machine.modes[n]) for n in OWN_MODES]
+        end_dump = canonical_dump(machine)
+        out["dump_diff"] = [["+", x] for x in multiset_diff(end_dump, st["base"])][:8] + \
+                           [["-", x] for x in multiset_diff(st["base"], end_dump)][:8]
+        out["nested"] = rec.nested
+        out["bad_fire"] = rec.bad_fire[:4]
+        out["late_outputs"] = [o for o in rec.outputs if not o[1]][:4]
+        out["n_outputs"] = len(rec.outputs)
+        for n in OWN_MODES:
+            out["modes"][n] = {"ops": rec.ops[n], "obs": rec.obs[n]}
+        keep = not (out["dump_diff"] or out["nested"] or out["bad_fire"] or out["late_outputs"] or
+                    any(out["final_phases"]) or any(q[2] or q[3] for q in out["quiescent"]) or held)
+    except BaseException as e:
+        out["error"] = "%s: %s" % (type(e).__name__, str(e)[:200])
+    finally:
+        _REC[0] = None
+        _OWN[0] = None
+        if out["error"] is None and rig.exception() is not None:
+            out["error"] = "loop exception: %s" % (str(rig.exception())[:200])
+            keep = False
+        if not keep:
+            # the machine is not back in its base state: the next case gets a fresh one
+            _OWNRIG[0] = None
+            rig.stop()
+    return out
+
+
+def coq_oop(o):
+    k = o[0]
+    if k == "OReg":
+        return "OReg %s (mkK %s %s %s %s) %s %s" % (zlit(o[1]), zlit(o[2][0]), zlit(o[2][1]), zlit(o[2][2]), zlit(o[2][3]),
+                                                   "true" if o[3] else "false", zlit(o[4]))
+    if k == "OUnreg":
+        return "OUnreg (mkK %s %s %s %s)" % tuple(zlit(x) for x in o[1])
+    if k == "OChange":
+        return "OChange %s %s %s" % (zlit(o[1]), zlit(o[2]), zlit(o[3]))
+    if k == "OFire":
+        return "OFire %s %s" % (zlit(o[1]), zlit(o[2]))
+    if k == "OCall":
+        return "OCall %s %s" % (zlit(o[1]), "true" if o[2] else "false")
+    if k == "ODone":
+        return "ODone %s" % zlit(o[1])
+    return k
+
+
+def coq_own(case, out):
+    if "boot_error" in out or out.get("error") or out.get("nested") or not out.get("grid"):
+        return None
+    ins, outs = [], []
+    for n in OWN_MODES:
+        m = out["modes"][n]
+        ins.append("(%s, %s)" % (zlist([cb for cb in case["stoppers"] if (10 <= cb < 20) == (n == "pb")]),
+                                 coqlist(coq_oop(o) for o in m["ops"])))
+        outs.append(coqlist("mkOO %s %s %s %s" % (zlit(o[0]), zlist(o[1]), zlist(o[2]), coqlist(zlist(d) for d in o[3]))
+                            for o in m["obs"]))
+    return "(%s, %s)" % (coqlist(ins), coqlist(outs))
+
+
+def oracle_own(case, out):
+    fails = []
+    if "boot_error" in out:
+        return fails
+    if out.get("error"):
+        fails.append({"sig": "exception", "what": "the machine raised during the history: " + out["error"]})
+        return fails
+    if out.get("nested"):
+        fails.append({"sig": "nested-lifecycle-call", "what": "lifecycle methods of the recorded modes nested"})
+    for b in out.get("bad_fire", []):
+        if b[0] == "after-stop":
+            fails.append({"sig": "fired-after-stop", "what": "switch handler cb%d, registered through Mode.switch_handlers, was invoked at "
+                          "t=%d us although the mode's stop had been requested (or the mode had removed it) since it was registered" % (b[1], b[2])})
+        else:
+            fails.append({"sig": "fired-outside-dispatch", "what": "switch handler cb%d invoked outside a switch change / timer wake-up" % b[1]})
+        break
+    if out.get("late_outputs"):
+        fails.append({"sig": "played-after-stop", "what": "a config player of a mode that is not active played: %s" % out["late_outputs"][:3]})
+    for tag, phases, leaks, overdue in out["quiescent"]:
+        if leaks:
+            fails.append({"sig": "left-behind", "what": "after script step %s an idle mode still owns: %s" % (tag, leaks[:4])})
+            break
+    for tag, phases, leaks, overdue in out["quiescent"]:
+        if overdue:
+            fails.append({"sig": "timed-handler-overdue", "what": "after script step %s counting entries are past their deadline: %s" % (tag, overdue)})
+            break
+    if any(out.get("final_phases", [])):
+        fails.append({"sig": "transition-stuck", "what": "modes do not stop: final phases %s" % out["final_phases"]})
+    if out.get("dump_diff"):
+        fails.append({"sig": "registry-not-restored", "what": "registries differ from the dump taken before the first start: %s" % out["dump_diff"][:6]})
+    return fails
+
+
+def shrink_own(case):
+    sc = case["script"]
+    for i in range(len(sc)):
+        yield dict(case, script=sc[:i] + sc[i + 1:])
+    if case["stoppers"]:
+        yield dict(case, stoppers=[])
+
+
+def nontrivial_own(case, out):
+    if "boot_error" in out or out.get("error"):
+        return False
+    n_fire = sum(1 for m in out["modes"].values() for o, b in zip(m["ops"], m["obs"]) if o[0] in ("OFire", "OChange") and b[1])
+    n_stale = sum(1 for m in out["modes"].values() for o in m["ops"] if o[0] == "OCall" and not o[2])
+    n_stop = sum(1 for m in out["modes"].values() for o, b in zip(m["ops"], m["obs"]) if o[0] == "OQStopped")
+    return n_stop >= 1 and (n_fire >= 1 or n_stale >= 1)
+
+
+def describe_own(case):
+    return "script=%s stoppers=%d" % ("<=10" if len(case["script"]) <= 10 else "<=20" if len(case["script"]) <= 20 else ">20",
+                                      len(case["stoppers"]))
+
+
+HDR_OWN = ("From C07 Require Import Model Own.\nDefinition run := own_run.\nDefinition out_eqb := own_out_eqb.\n")
+
 HDR_DEV = ("From C07 Require Import Model Devices Controller.\n"
            "Definition devb_in : Type := (list (list (bool * Z * bool * list Z) * list dop) * "
            "list (list (bool * bool * bool) * list Z))%type.\n"
@@ -1770,9 +2553,12 @@ HDR_LIFE = "From C07 Require Import Model.\nDefinition run := life_run.\nDefinit
 
 SUITES = [
     Suite("life", gen_life, run_life, HDR_LIFE, coq_life, oracle_life, shrink_life, nontrivial_life,
-          {"quick": int(os.environ.get("C07_N", "280")), "thorough": 10000}, describe=describe_life, shard=40, case_timeout=120),
+          {"quick": int(os.environ.get("C07_N", "264")), "thorough": 10000}, describe=describe_life, shard=35, case_timeout=120),
     Suite("dev", gen_dev, run_dev, HDR_DEV, coq_dev, oracle_dev, shrink_dev, nontrivial_dev,
           {"quick": int(os.environ.get("C07_ND", "120")), "thorough": 6000}, describe=describe_dev, shard=40, case_timeout=120),
+    Suite("own", gen_own, run_own, HDR_OWN, coq_own, oracle_own, shrink_own, nontrivial_own,
+          {"quick": int(os.environ.get("C07_NO", "320")), "thorough": 12000}, worker_init=_init_own, describe=describe_own,
+          shard=80, case_timeout=120),
 ]
 
 LEVEL_TEXT = ("Machine-checked proof (Coq) over three hand-written models, for every history: (1) the lifecycle transition system "
@@ -1783,7 +2569,12 @@ LEVEL_TEXT = ("Machine-checked proof (Coq) over three hand-written models, for e
               "flags, shot registrations, immediate and delayed control events posted at any time): an idle mode has no loaded "
               "device, no registration, no pending delayed control event and no control handler, every registration is "
               "tracked, a shot is hit once per activation, no action reaches a removed device; (3) the controller at ball end / "
-              "ball start.  The defects of the code as found are _refuted theorems with witnesses.  Every lifecycle step, control "
+              "ball start; (4) the switch controller and config players of one mode: a callback that was only registered through "
+              "Mode.switch_handlers is never invoked after the mode stopped (switch changes, timed-handler wake-ups, catch-up "
+              "entries, removals in the middle of the dispatch loops), an idle mode has no registered and no counting entry, "
+              "every counting entry belongs to a registered handler, players play only while the mode is active and a mode that "
+              "is not active has no relay wait handler, also when config_play_callback is called from a copied handler list.  "
+              "The defects of the code as found are _refuted theorems with witnesses.  Every lifecycle step, control "
               "event, delay delivery and ball end the real objects execute in generated histories is replayed on the models on "
               "every run.")
 LEVEL_NOTE = ("Trusted: Coq kernel + vm_compute; no axioms. Models hand-written; event bus not modelled (completions are history "
@@ -1792,6 +2583,7 @@ LEVEL_NOTE = ("Trusted: Coq kernel + vm_compute; no axioms. Models hand-written;
               "delays and removals are predicted; tie = replay of observed steps + direct oracle (cycle order, sorted active list, "
               "idle-owns-nothing over every registry incl. the machine-wide delay manager, complete registry dump equal at equal "
               "game states, one hit per activation, no stuck transition at any quiescent point, controller requests at ball end, "
-              "no exception).")
-TECHNIQUE = "Coq proof over hand-written transition-system models + differential replay of observed lifecycle / device / controller steps (vm_compute) + direct oracle"
+              "no exception; own suite: no handler registered through the mode is invoked after its stop was requested, no player "
+              "output for a mode that is not active, nothing of an idle mode in the switch tables / player instances / light stacks).")
+TECHNIQUE = "Coq proof over hand-written transition-system models + differential replay of observed lifecycle / device / controller / switch-controller / config-player steps (vm_compute) + direct oracle"
 DESIGN_REF = "DESIGN.md section 3, C07"
